@@ -19,6 +19,12 @@ func coreC18(tier string) []RunSpec {
 			out = append(out, RunSpec{Profile: "core:sends-after-restore", Params: map[string]int{"fee": fi, "rot": rot, "k": 0, "rst": 1}})
 		}
 	}
+	// old-keyset proofs cover the amount but not their own fees, the active keyset holds the rest
+	for _, fi := range []int{1, 2, 3, 4, 5} {
+		for k := 0; k < 2; k++ {
+			out = append(out, RunSpec{Profile: "core:inactive-keyset-covers-amount-not-fees", Params: map[string]int{"fee": fi, "inact": 1, "k": k + 2*(fi%2)}})
+		}
+	}
 	return out
 }
 
@@ -36,6 +42,29 @@ func runC18(rc *RunCtx) {
 	for i := 0; i < n; i++ {
 		ww.step = -1 - i
 		ww.StepMint()
+	}
+	if rc.P("inact", 0) == 1 {
+		// the wallet holds proofs of the rotated-out keyset worth the amount but not the amount plus
+		// their fees, beside plenty on the active keyset: the send is within the bound and must succeed
+		w := ww.Wallets[0]
+		old := []uint64{8, 12, 5, 16}[rc.P("k", 0)%4]
+		ww.mintInto(w, old)
+		ww.StepRotate([]uint64{uint64(c18Fees[fi])})
+		ww.mintInto(w, 64)
+		for i, fs := range []forcedSend{{w, old, true}, {w, old - 1, true}, {w, old, false}, {w, old + 1, true}} {
+			ww.step = i
+			f := fs
+			ww.forceSend = &f
+			if tok := ww.StepSend(); tok != nil {
+				ww.StepReceive()
+			}
+			ww.forceSend = nil
+			ww.CheckWallets("step")
+			ww.mintInto(w, old)
+		}
+		rc.S.Probe("c18_inactive_keyset_covers_amount_not_fees")
+		rc.Nontrivial = true
+		return
 	}
 	rot := rc.P("rot", -1)
 	if rot < 0 {
